@@ -626,6 +626,9 @@ impl Runtime {
         if self.listing.remove_range(from..=to) {
             self.dirty = true;
             self.state = State::Stopped;
+            self.cont = State::Stopped;
+            self.stack.clear();
+            self.functions.clear();
         }
         Ok(self.r#end())
     }
